@@ -115,6 +115,12 @@ def classify(run, res):
     """Returns None if the run satisfied its oracle, else (class, detail)."""
     rc, out, err, stats = res["rc"], res["stdout"], res["stderr"], res["stats"]
     exp = run["expect"]
+    if exp.get("stdout_strip"):
+        # marker lines printed by other threads may sit between any two print calls
+        nm = out.count(exp["stdout_strip"])
+        if nm > exp.get("stdout_strip_max", 10**9):
+            return ("output-mismatch", "%d marker lines, at most %d were written" % (nm, exp["stdout_strip_max"]))
+        out = out.replace(exp["stdout_strip"], "")
     first_err = err.splitlines()[0] if err.strip() else ""
     if res.get("timeout"):
         return ("timeout", "no result within %ds" % run.get("timeout", 0))
